@@ -28,7 +28,7 @@ TECHNIQUE = ('property-based testing (Hypothesis) plus an exhaustive '
              'calibration against hand-written reference build files')
 RULE = ('Path components over printable ASCII incl. space and \' " $ # % & ( '
         ') * ? [ ] : , @ ! + ~ { } ; = | < > ^ ` (no / or \\, no leading '
-        'one-letter-plus-colon, not . or ..), length 1-6, in fourteen roles '
+        'one-letter-plus-colon, not . or ..), length 1-6, in sixteen roles '
         '(source, header, exe/build_step/two-output build_step/copy_file output, '
         '120 copy_file outputs at once, '
         'output directory, '
@@ -50,7 +50,8 @@ LEVEL_NOTE = ('Trusted: GNU Make 4.3, the reference Ninja evaluator (not '
               'hand-written reference build files of this module.')
 ASSUMPTIONS = ['the header role additionally excludes " (C include syntax)']
 
-ROLES = ['source', 'header', 'exe', 'step', 'multistep', 'copy', 'bulk',
+ROLES = ['source', 'topobj', 'objhdr', 'header', 'exe', 'step', 'multistep',
+         'copy', 'bulk',
          'outdir',
          'submodule',
          'findfile', 'finddir', 'walkdir', 'incdir', 'gincdir']
@@ -188,6 +189,25 @@ def render(role, n, src):
           "executable('prog', ['main.c', {!r}])\n".format(n + '.c'))
         obj = ('B', 'prog.int/' + n + '.o')
         return [obj, ('B', 'prog')], ('S', n + '.c'), [obj]
+    if role == 'topobj':
+        # an object file at the top of the build directory, input of a link
+        w(os.path.join(src, n + '.c'), 'int f(void){return 0;}\n')
+        w(os.path.join(src, 'main.c'), 'int f(void);\nint main(void)'
+          '{return f();}\n')
+        w(os.path.join(src, 'build.bfg'),
+          "o = object_file(file={!r})\nexecutable('prog', ['main.c', o])\n"
+          .format(n + '.c'))
+        obj = ('B', n + '.o')
+        return [obj, ('B', 'prog')], ('S', n + '.c'), [obj, ('B', 'prog')]
+    if role == 'objhdr':
+        # the name is part of an object's path; a header it includes changes
+        w(os.path.join(src, 'h.h'), '#define V 0\n')
+        w(os.path.join(src, 'main.c'), '#include "h.h"\nint main(void)'
+          '{return V;}\n')
+        w(os.path.join(src, 'build.bfg'),
+          "executable({!r}, ['main.c'])\n".format(n + '/prog'))
+        obj = ('B', n + '/prog.int/PAR/main.o')
+        return [obj, ('B', n + '/prog')], ('S', 'h.h'), [obj]
     if role == 'header':
         w(os.path.join(src, n + '.h'), '#define V 0\n')
         w(os.path.join(src, 'main.c'), '#include "{}.h"\nint main(void)'
@@ -418,7 +438,9 @@ def representable(backend, n, kind='plain'):
             os.makedirs(os.path.join(tmp, 'in'))
             os.makedirs(os.path.join(tmp, 'out'))
             try:
-                if kind == 'plain':
+                if kind == 'deptarget':
+                    pass
+                elif kind == 'plain':
                     sandbox.write_file(os.path.join(tmp, 'in', n), 'x\n')
                 else:
                     sandbox.write_file(os.path.join(tmp, 'in', n + '.h'),
@@ -429,7 +451,41 @@ def representable(backend, n, kind='plain'):
                         .format(n))
             except OSError:
                 break
-            if kind == 'plain':
+            if kind == 'deptarget':
+                # the name is a directory of the object the compiler names as
+                # the target of the depfile it writes
+                try:
+                    os.makedirs(os.path.join(tmp, 'out', n))
+                    sandbox.write_file(os.path.join(tmp, 'in', 'h.h'),
+                                       '#define V 0\n')
+                    sandbox.write_file(
+                        os.path.join(tmp, 'in', 'main.c'),
+                        '#include "h.h"\nint main(void){return V;}\n')
+                except OSError:
+                    break
+                obj = 'out/' + n + '/main.o'
+                if backend == 'make':
+                    inc = obj.replace('$', '$$').replace(' ', '\\ ') \
+                        .replace('#', '\\#') + '.d'
+                    sandbox.write_file(
+                        os.path.join(tmp, 'Makefile'),
+                        '.SUFFIXES:\nall: {t}\n{t}: in/main.c\n\tgcc -c '
+                        'in/main.c -MMD -MP -MF {q}.d -o {q}\n-include {i}\n'
+                        .format(t=_make_escape_min(obj, True),
+                                q=_shq(obj).replace('$', '$$'), i=inc))
+                else:
+                    e = obj.replace('$', '$$').replace(' ', '$ ') \
+                        .replace(':', '$:')
+                    sandbox.write_file(
+                        os.path.join(tmp, 'build.ninja'),
+                        'rule cc\n  command = gcc -c $in -MMD -MF {q}.d -o '
+                        '{q}\n  depfile = $out.d\n  deps = gcc\n'
+                        'build {e}: cc in/main.c\n'
+                        'build all: phony {e}\ndefault all\n'.format(
+                            q=_shq(obj).replace('$', '$$'), e=e))
+                out = os.path.join(tmp, obj)
+                touched = os.path.join(tmp, 'in', 'h.h')
+            elif kind == 'plain':
                 if backend == 'make':
                     sandbox.write_file(os.path.join(tmp, 'Makefile'),
                                        _reference_make(n, strategy))
@@ -475,6 +531,10 @@ def key_for(backend, role, step, n):
     return '{}/{}/{}'.format(backend, role, ch)
 
 
+def deptarget_role(role):
+    return role in ('objhdr',)
+
+
 def depfile_role(backend, role):
     """Does the name pass through a depfile read by the tool's depfile
     parser?  (The record of walked directories is a Makefile fragment for
@@ -501,7 +561,9 @@ def check_name(rec, backend, role, n, case):
         return
     unrep = sp and (not representable(backend, n) or (
         depfile_role(backend, role) and '"' not in n and
-        not representable(backend, n, 'depfile')))
+        not representable(backend, n, 'depfile')) or (
+        deptarget_role(role) and
+        not representable(backend, n, 'deptarget')))
     if depfile_role(backend, role) and '"' in n and sp:
         unrep = True                    # cannot even be #included
     if unrep:
@@ -572,7 +634,7 @@ def sweep_cases():
     return out
 
 
-CORE_NAMES = ['a b', 'a$b', 'a#b', 'ab:c', 'a%b', 'a b/c d']
+CORE_NAMES = ['a b', 'a$b', 'a#b', 'ab:c', 'a%b', '-ab', '~ab', 'a b/c d']
 
 
 LEADING = '~-=+@#.:%!&^,'
